@@ -53,7 +53,7 @@ ValidRle(r) ==
 Explained(r) ==
     /\ ~("panic" \in DOMAIN r)
     /\ CASE r.chk = "valid" -> ValidResult(Eff(r), r.t, r.p, r.cs, r.norm, r.sch, Got(r), r.wp)
-         [] r.chk = "score" -> (r.s >= 0) = (Spec(r).s >= 0) /\ r.sc = Spec(r).sc
+         [] r.chk = "score" -> (r.s >= 0 /\ Spec(r).s >= 0) => r.sc = Spec(r).sc       \* the matched bit is C02's
          [] r.chk = "exact" -> LET f == Spec(r) IN /\ r.s = f.s /\ r.e = f.e /\ r.sc = f.sc
                                                    /\ (r.wp => r.pos = f.pos)
          [] r.chk = "rle" -> ValidRle(r)
